@@ -18,6 +18,7 @@
 -/
 import RumaModel.Lemmas.PushMatch
 import RumaModel.Lemmas.PushPath
+import RumaModel.Lemmas.PushCount
 namespace Ruma.Props.C12
 open Ruma.Push
 open Ruma.Spec.Glob (Glob WordMatch globDecide wordDecide)
@@ -109,6 +110,37 @@ theorem memberCount_iff (is : MemberCountIs) (x : Nat) :
   rw [memberCount_eq]
   obtain ⟨op, n⟩ := is
   cases op <;> simp [Ruma.Spec.Push.compare]
+
+/-- FULL-STRENGTH statement about the `is` string of `room_member_count` as it arrives in JSON: the
+code's reading (`RoomMemberCountIs::from_str`, then `contains`) is the spec's — "a decimal integer
+optionally prefixed by one of `==`, `<`, `>`, `>=` or `<=`", anything else is not a condition the
+spec defines (`none`). FALSE of the code: see `memberCountStringStatement_refuted`. -/
+def MemberCountStringStatement : Prop :=
+  ∀ (s : Text) (x : Nat), memberCountStr s x = Ruma.Spec.Push.memberCountDecide s x
+
+/-- Known finding (findings/C12.json, replayed on the real deserializer on every run): the statement
+above is false. `RoomMemberCountIs::from_str` hands the count to `u64::from_str`, which skips one
+leading `+`: `"+3"` is read as `==3` and holds in a room of 3 members, while the spec's grammar has
+no `+` (the condition is not one the spec defines). -/
+theorem memberCountStringStatement_refuted : ¬ MemberCountStringStatement := by
+  intro h
+  have := h "+3".toList 3
+  revert this
+  decide
+
+/-- What does hold: for every `is` string without a `+` and every member count, the code reads the
+string exactly as the spec does — same strings rejected, same comparison and number otherwise
+(including the arm order `<=` before `<`, `>=` before `>`, the `2^53 − 1` limit, leading zeros,
+non-ASCII digits rejected). Missing for the full statement: exactly the strings containing `+`. -/
+theorem memberCount_string_iff_partial (s : Text) (x : Nat) (hplus : '+' ∉ s) :
+    memberCountStr s x = Ruma.Spec.Push.memberCountDecide s x := by
+  unfold memberCountStr Ruma.Spec.Push.memberCountDecide
+  rw [fromStr_noplus s hplus]
+  cases List.findSome? (Ruma.Spec.Push.readAs s) Ruma.Spec.Push.opSpellings with
+  | none => rfl
+  | some r => simp [memberCount_eq]
+
+example : '+' ∉ ">=10".toList ∧ memberCountStr ">=10".toList 10 = some true := by decide
 
 /-- `sender_notification_permission` holds iff there is a power-levels context, the event's sender
 is a user id, the key is `room`, and the sender's level (own entry, else `users_default`) is at
@@ -205,6 +237,8 @@ end Ruma.Props.C12
 #print axioms Ruma.Props.C12.reference_matchers_ok
 #print axioms Ruma.Props.C12.memberCount_iff
 #print axioms Ruma.Props.C12.notificationPermission_iff
+#print axioms Ruma.Props.C12.memberCountStringStatement_refuted
+#print axioms Ruma.Props.C12.memberCount_string_iff_partial
 #print axioms Ruma.Props.C12.flatten_path_injective
 #print axioms Ruma.Props.C12.flatten_get_eq_lookup
 #print axioms Ruma.Props.C12.getMatch_first_enabled
